@@ -88,6 +88,10 @@ func runHistoryGo(kp *KeyPair, nu0 *big.Int, time0 int64, steps []any) string {
 					c := *e
 					evs[i] = &c
 				}
+				if st["badparentappend"] != nil {
+					// bytes moved from the front of the value onto the end of the parent hash
+					evs[k].ParentHash = append(append(revocation.Hash{}, evs[k].ParentHash...), unhb(st["badparentappend"])...)
+				}
 				if st["bade"] != nil {
 					evs[k].E = unhx(st["bade"]) // a value of the attacker's choosing
 				} else {
@@ -279,6 +283,15 @@ func (b *histBuilder) mkbadevents(id string, from, to, k int) {
 	b.expect = append(b.expect, "update-ok")
 }
 
+// mkresplit: event k of the window re-split: its value bytes appended to its parent hash, its
+// value replaced (the hashed byte string index || parent hash || value stays what it was)
+func (b *histBuilder) mkresplit(id string, from, to, k int, moved []byte, val *big.Int) {
+	b.steps = append(b.steps, map[string]any{"t": "mkupdate", "u": id, "from": from, "to": to, "badevents": true, "badk": k, "bade": hx(val), "badparentappend": hb(moved)})
+	b.upd[id] = [2]int{from, to}
+	b.badev[id] = true
+	b.expect = append(b.expect, "update-ok")
+}
+
 // redecode: the message for from..to read into the existing update object u
 func (b *histBuilder) redecode(id string, from, to int) {
 	b.steps = append(b.steps, map[string]any{"t": "redecode", "u": id, "from": from, "to": to})
@@ -353,6 +366,22 @@ func chosenEventValuesOp(g *Rng, kp *KeyPair) Op {
 					b.verifyw(tmp)
 				}
 			}
+		}
+	}
+	// the first event of a window re-split between parent hash and value (all of the value moved:
+	// value 0; all but the last byte moved), met by the witness just behind the window
+	for from := 1; from <= n; from++ {
+		eb := evs[from].Bytes()
+		for vi, cut := range []int{len(eb), len(eb) - 1, 1} {
+			if cut <= 0 || cut > len(eb) {
+				continue
+			}
+			id := fmt.Sprintf("rs%d_%d", from, vi)
+			b.mkresplit(id, from, n, 0, eb[:cut], new(big.Int).SetBytes(eb[cut:]))
+			tmp := "t" + id
+			b.clone(fmt.Sprintf("w%d", from-1), tmp)
+			b.apply(tmp, id)
+			b.verifyw(tmp)
 		}
 	}
 	// genuine updates announced under another key counter, met by witnesses behind, inside and at
